@@ -176,6 +176,7 @@ class LoopSpec:
             # inductive step at an arbitrary iteration k
             k = ctx.fresh("k", "int")
             ctx.assume(z3.And(k.t >= 0, k.t < cnt_t))
+            ctx.add_index(k.t)
             self._havoc(I, env, olds, "step")
             ctx.assume(as_formula(self.invariant(View(env), k)))
             I.assign_target(st.target, items.item(k.t), env)
